@@ -13,7 +13,7 @@ Extraction "model.ml"
   sp_stores_owned sp_growth_ok sp_chain_ok sp_iter_exact footer_of lay_ok layout_ok
   mkVec mkEcfg v_cap contents vwith_capacity push pop insert remove swap_remove truncate truncate_state
   try_reserve reserve shrink_to_fit drain drain_filter retain dedup_by dedup_state resize
-  extend_copy extend_iter extend_slices_copy split_off drop_vec splice into_iter clone_vec resize_clone_panic
-  valid_utf8 is_char_boundary utf8_lossy_spec from_utf8_lossy actual_width scalar encode decode s_push s_insert s_pop s_retain s_extend s_push_str chars from_utf16 s_truncate s_insert_str s_split_off s_remove s_replace_range retain_run
+  extend_copy extend_iter extend_slices_copy split_off drop_vec splice into_iter clone_vec resize_clone_panic into_slice
+  valid_utf8 is_char_boundary utf8_lossy_spec from_utf8_lossy actual_width scalar encode decode s_push s_insert s_pop s_retain s_extend s_push_str chars from_utf16 s_truncate s_insert_str s_split_off s_remove s_replace_range retain_run s_drain
   bw0 box_new box_drop box_into_inner box_leak box_roundtrip box_try_array box_downcast box_of_vec
   accepts drun st0 dyn0 trait_holds actual_facts mkFacts.
